@@ -166,8 +166,12 @@ def check_read(ctx, rep, cls_qual):
                     okt2 = False
                     wit = [n, t]
                     continue
-                r = Q.reach([t], labels=("next", "true", "false"))
-                pth = Q.find_path(t, stops + [gt.exit], avoid=heads, labels=("next", "true", "false"), skip_first=False)
+                vok = Q.valuation_edges(K.exc_instance_decider(gt, TimeoutError))
+                head_ids = {x.id for x in heads}
+                stop_ids = {x.id for x in stops} | {gt.exit.id}
+                r = set(Q.reach_ef([t], lambda a, b, l: l != "exc" and vok(a, b, l)))
+                pth = Q.find_path_ef([t], lambda x: x.id in stop_ids,
+                                     lambda a, b, l: l != "exc" and vok(a, b, l) and b.id not in head_ids, skip_first=False)
                 if pth is not None or not (set(heads) & r):
                     okt2 = False
                     wit = [n] + (pth or [t])
